@@ -691,6 +691,11 @@ func (run *runner) runScenario(sc *Scenario) {
 				rc = fmt.Sprintf("%s/%d", dns.RcodeToString[res.reply.Rcode], len(res.reply.Answer))
 			}
 			fmt.Fprintf(os.Stderr, "  S%d V=%-14v %-46s -> %-12s old=%-8s upstream=%d\n", index, res.vStart.Round(time.Millisecond), p, rc, kind, w.u.Log.Len()-res.from)
+			if os.Getenv("C08_DEBUG") == "3" {
+				for _, pk := range w.u.Log.Since(res.from) {
+					fmt.Fprintf(os.Stderr, "        %s\n", pk.String())
+				}
+			}
 		}
 		return res, true
 	}
